@@ -21,7 +21,9 @@ impl Labels {
 	fn get_or_add_unchecked(&mut self, pc: u16) -> &mut Label {
 		self.labels.entry(pc).or_insert_with(|| {
 			let label = Label { id: self.max_id };
-			self.max_id += 1;
+			// There are at most 65536 bytecode offsets (0 to the code length, inclusive). When every one of them has a label,
+			// the id after the last one doesn't fit an u16, but it's also never handed out.
+			self.max_id = self.max_id.wrapping_add(1);
 			label
 		})
 	}
